@@ -547,7 +547,7 @@ func (vfs *MemFS) OpenFile(name string, flag int, perm fs.FileMode) (avfs.File, 
 		parent.mu.Lock()
 		defer parent.mu.Unlock()
 
-		if om&avfs.OpenWrite == 0 || !parent.checkPermission(avfs.OpenWrite|avfs.OpenLookup, vfs.User()) {
+		if !parent.checkPermission(avfs.OpenWrite|avfs.OpenLookup, vfs.User()) {
 			return (*MemFile)(nil), &fs.PathError{Op: op, Path: name, Err: vfs.err.PermDenied}
 		}
 
@@ -573,12 +573,18 @@ func (vfs *MemFS) OpenFile(name string, flag int, perm fs.FileMode) (avfs.File, 
 		c.mu.Lock()
 		defer c.mu.Unlock()
 
-		if !c.checkPermission(om, vfs.User()) {
-			return (*MemFile)(nil), &fs.PathError{Op: op, Path: name, Err: vfs.err.PermDenied}
-		}
-
 		if om&avfs.OpenCreateExcl != 0 {
 			return (*MemFile)(nil), &fs.PathError{Op: op, Path: name, Err: vfs.err.FileExists}
+		}
+
+		perm := om
+		if om&avfs.OpenTruncate != 0 {
+			// Truncating a file requires write permission whatever the access mode.
+			perm |= avfs.OpenWrite
+		}
+
+		if !c.checkPermission(perm, vfs.User()) {
+			return (*MemFile)(nil), &fs.PathError{Op: op, Path: name, Err: vfs.err.PermDenied}
 		}
 
 		if om&avfs.OpenTruncate != 0 {
@@ -597,7 +603,7 @@ func (vfs *MemFS) OpenFile(name string, flag int, perm fs.FileMode) (avfs.File, 
 			return (*MemFile)(nil), &fs.PathError{Op: op, Path: name, Err: vfs.err.FileExists}
 		}
 
-		if om&avfs.OpenWrite != 0 {
+		if om&(avfs.OpenWrite|avfs.OpenCreate|avfs.OpenTruncate) != 0 {
 			return (*MemFile)(nil), &fs.PathError{Op: op, Path: name, Err: vfs.err.IsADirectory}
 		}
 
